@@ -269,3 +269,26 @@ func replayHistory(cfg *MachineCfg, steps []world.Step) (*world.World, error) {
 	}
 	return w, nil
 }
+
+// writeSummary records the coverage of a non-machine check (one line per test process).
+func writeSummary(prop string, evals, nt int, distinctNT []string, labels map[string]int, samples []interface{}, extra map[string]interface{}) {
+	statMu.Lock()
+	defer statMu.Unlock()
+	p := os.Getenv("VERIF_STATS")
+	if p == "" {
+		return
+	}
+	f, err := os.OpenFile(p, os.O_CREATE|os.O_WRONLY|os.O_APPEND, 0o644)
+	if err != nil {
+		panic(err)
+	}
+	defer f.Close()
+	doc := map[string]interface{}{"summary": true, "prop": prop, "evals": evals, "nt": nt, "labels": labels, "samples": samples, "extra": extra}
+	if len(distinctNT) <= 200000 {
+		doc["distinct_nt"] = distinctNT
+	} else {
+		doc["distinct_nt_count"] = len(distinctNT)
+	}
+	bz, _ := json.Marshal(doc)
+	f.Write(append(bz, '\n'))
+}
